@@ -45,6 +45,11 @@ type PlayClient struct {
 	closed   bool
 	WaitErr  atomic.Value // error returned by Wait, once known
 	Switched atomic.Bool  // transport switch happened
+
+	// what the client reported through OnPacketsLost / OnDecodeError (diagnostics)
+	LostReported   atomic.Int64
+	DecodeErrs     atomic.Int64
+	FirstDecodeErr atomic.Value // string
 }
 
 func protoPtr(p string) *gortsplib.Protocol {
@@ -127,8 +132,12 @@ func NewPlayClient(ts *TestServer, o ClientOpts) (*PlayClient, error) {
 		}
 	}
 	c.OnTransportSwitch = func(error) { pc.Switched.Store(true) }
-	c.OnPacketsLost = func(uint64) {}
-	c.OnDecodeError = func(error) {}
+	c.OnPacketsLost = func(n uint64) { pc.LostReported.Add(int64(n)) }
+	c.OnDecodeError = func(err error) {
+		if pc.DecodeErrs.Add(1) == 1 {
+			pc.FirstDecodeErr.Store(err.Error())
+		}
+	}
 	if o.Mutate != nil {
 		o.Mutate(c)
 	}
